@@ -1,4 +1,5 @@
 import Percival.Proofs.Parsenum
+import Percival.Proofs.Humansize
 /-!
 # C16 — numeric text parsing is exact
 
@@ -94,5 +95,58 @@ theorem parsenumNoBounds_signed_aborts (t : IntTy) (bs : List UInt8) (base : Nat
   unfold parsenumNoBounds; rw [ex4_signed_abort _ _ _ _ ht]; rfl
 
 example : IntTy.signed .i16 = true := rfl
+
+/-! ## Human-readable sizes -/
+
+section humansize
+open Percival.Spec.Humansize Percival.Model.Humansize
+
+/-- `humansize_parse` succeeds with `v` exactly when the string matches `[0-9]+ ?[kMGTPE]?B?`, denotes
+    `v = digits · 1000^k`, and `v ≤ 2^64 - 1`. -/
+theorem humansize_parse_ok_iff (bs : List UInt8) (v : Nat) :
+    parse (cstr bs) = .ok v ↔ Parses (cstr bs) v ∧ v ≤ U64MAX :=
+  Percival.Proofs.Humansize.parse_ok_iff _ _
+
+example : parse (cstr [0x31, 0x30, 0x20, 0x45, 0x42, 0x00, 0x37]) = .ok 10000000000000000000 := by decide
+example : Parses [0x32, 0x6b] 2000 :=
+  ⟨[0x32], [0x6b], 2, 1, rfl, by simp, by decide, ⟨[], [0x6b], [], rfl, Or.inl rfl, Or.inr ⟨by omega, 0x6b, rfl, rfl⟩, Or.inl rfl⟩, rfl⟩
+
+/-- … and fails otherwise: malformed, or the value overflows 64 bits. -/
+theorem humansize_parse_fail_iff (bs : List UInt8) :
+    parse (cstr bs) = .fail ↔ ¬ ∃ v, Parses (cstr bs) v ∧ v ≤ U64MAX :=
+  Percival.Proofs.Humansize.parse_fail_iff _
+
+example : parse [0x31, 0x30, 0x30, 0x20, 0x45, 0x42] = .fail := by decide     -- "100 EB"
+example : parse [0x31, 0x20, 0x20, 0x42] = .fail := by decide                 -- "1  B"
+
+/-- the division `UINT64_MAX / multiplier` never divides by zero -/
+theorem humansize_parse_no_divzero (bs : List UInt8) : parse (cstr bs) ≠ .divzero :=
+  Percival.Proofs.Humansize.parse_ne_divzero _
+
+example : parse [] = .fail := by decide
+
+/-- `humansize n` prints the largest documented form (`N B`, `X pB` with 10 ≤ X ≤ 999, `a.b pB` with
+    1.0 ≤ a.b ≤ 9.9) whose value does not exceed `n`; the prefix lookup stays inside `" kMGTPE"`.
+    Holds for every `n < 10^21`, in particular for every `uint64_t`. -/
+theorem humansize_largest_below (n : Nat) (hn : n < 2 ^ 64) :
+    ∃ f str, IsLargestBelow f n ∧ f.render = some str ∧ format n = .str str :=
+  Percival.Proofs.Humansize.format_spec n (by omega)
+
+example : ∃ f str, IsLargestBelow f 18446744073709551615 ∧ f.render = some str ∧
+    format 18446744073709551615 = .str str := humansize_largest_below _ (by decide)
+example : IsLargestBelow (.int 18 6) 18446744073709551615 := by        -- "18 EB"
+  simpa using Percival.Proofs.Humansize.form_largest 18446744073709551615 6 1000000000000000 (by omega) (by omega)
+    (by simp) (by omega) (by omega)
+
+/-- the constants the model takes from the current source (`Gen/HumansizeC.lean`) are the documented ones -/
+theorem humansize_constants :
+    Percival.Gen.HumansizeC.prefixes = siPrefixes ∧
+    Percival.Gen.HumansizeC.siCases = [(0x45, 1000), (0x50, 1000), (0x54, 1000), (0x47, 1000), (0x4d, 1000), (0x6b, 1000)] ∧
+    Percival.Gen.HumansizeC.smallLimit = 1000 ∧ Percival.Gen.HumansizeC.firstDiv = 100 ∧
+    Percival.Gen.HumansizeC.firstShift = 1 ∧ Percival.Gen.HumansizeC.loopLimit = 10000 ∧
+    Percival.Gen.HumansizeC.loopDiv = 1000 ∧ Percival.Gen.HumansizeC.decimalLimit = 100 := by
+  decide
+
+end humansize
 
 end Percival.C16
